@@ -186,7 +186,7 @@ impl Scenario for C11Tcp {
                     Step::Connect { client, capacity } => {
                         let peer: SocketAddr = format!("10.0.0.{}:4000", client + 1).parse().unwrap();
                         if let Some(id) = net2.peer_connect(addr, peer, *capacity) {
-                            c2.lock().unwrap().insert(*client, ClientRec { conn: id, roomy: *capacity >= 65536, connect_step: si, connect_idle: idles_seen, first_sure_burst: usize::MAX, closed_step: None, stalled: false, reads: 0 });
+                            c2.lock().unwrap().insert(*client, ClientRec { conn: id, roomy: *capacity >= 65536, connect_step: si, connect_idle: idles_seen, first_sure_burst: usize::MAX, closed_step: None, stalled: false, reads: 0, quiescent_len: usize::MAX });
                         }
                     }
                     Step::Burst { per_thread } => {
@@ -272,12 +272,18 @@ impl Scenario for C11Tcp {
                 }
             };
             drain();
+            idle();
             {
                 let mut cl = c2.lock().unwrap();
+                let st = net2.st.lock().unwrap();
                 for c in cl.values_mut() {
                     if c.first_sure_burst == usize::MAX {
                         c.first_sure_burst = burst_no + 1;
                     }
+                    // nothing further will be emitted until the final burst: whatever is owed to a
+                    // reading client must be on its connection by now, without the help of a later
+                    // emission waking the transport up
+                    c.quiescent_len = st.streams.get(&c.conn).map(|s| s.to_peer.len()).unwrap_or(0);
                 }
             }
             burst_no += 1;
@@ -379,6 +385,9 @@ pub struct ClientRec {
     closed_step: Option<usize>,
     stalled: bool,
     reads: u32,
+    /// bytes the exporter had written to this client at the quiescent point of the closing phase
+    /// (faults off, everybody drained, transport idle) *before* the final burst was emitted
+    quiescent_len: usize,
 }
 
 fn check(plan: &Plan, emits: &[Emit], clients: &BTreeMap<usize, ClientRec>, describes: &[(usize, usize, bool)], streams: &BTreeMap<u64, (Vec<u8>, bool)>, faults: &[FaultDecision]) -> Option<Violation> {
@@ -484,7 +493,23 @@ fn check(plan: &Plan, emits: &[Emit], clients: &BTreeMap<usize, ClientRec>, desc
         }
         // delivery: a client that was accepted, never stalled and still connected gets everything
         // emitted after its accept completed; everybody still connected gets the final burst
+        let quiescent_tags: BTreeSet<u64> = {
+            let n = c.quiescent_len.min(bytes.len());
+            match pe::decode_stream(&bytes[..n]) {
+                Ok((evs, _)) => evs.iter().filter_map(|ev| if let PEv::Metric { op, bits, .. } = ev { Some(if *op <= 5 { *bits } else { f64::from_bits(*bits) as u64 }) } else { None }).collect(),
+                Err(_) => BTreeSet::new(),
+            }
+        };
         if c.closed_step.is_none() && !killed {
+            for e in &emits {
+                let must_q = e.burst != final_burst && e.burst >= c.first_sure_burst && !c.stalled && c.roomy && burst_ok.get(&e.burst).copied().unwrap_or(false) && plan_reads_each_burst(plan, *ci, c);
+                if must_q && c.quiescent_len != usize::MAX && got_tags.contains(&e.tag) && !quiescent_tags.contains(&e.tag) {
+                    return violation(
+                        "metric-delivered-only-after-later-traffic",
+                        format!("client {} (connected at step {}, reading): the metric emitted in burst {} (value {}) was still not on its connection when faults had stopped, everybody had drained and the transport had gone idle; it only arrived after the final burst woke the transport again (buffer_size {:?})", ci, c.connect_step, e.burst, e.tag, plan.buffer),
+                    );
+                }
+            }
             for e in &emits {
                 let must = (e.burst >= c.first_sure_burst && !c.stalled && c.roomy && burst_ok.get(&e.burst).copied().unwrap_or(false) && plan_reads_each_burst(plan, *ci, c)) || e.burst == final_burst;
                 if must && !got_tags.contains(&e.tag) {
